@@ -204,6 +204,53 @@ def tlc_parallel(jobs, par=None):
     return res
 
 
+def check_records(module, consts, recs, spec="CheckSpec", chunks=None, timeout=900, name=None):
+    """Validate records (list of dicts, produced by the real code) with the ASSUME-based checker module `module`
+    (see spec/FragCheck.tla). Returns (n_checked, [(index, problems)], [TlcResult])."""
+    from concurrent.futures import ThreadPoolExecutor
+    if not recs:
+        return 0, [], []
+    chunks = chunks or min(NCPU, max(1, len(recs) // 200))
+    per = (len(recs) + chunks - 1) // chunks
+    jobs = []
+    for c in range(chunks):
+        part = recs[c * per:(c + 1) * per]
+        if not part:
+            continue
+        path = write_input("%s-%s-%d.ndjson" % (name or module, os.getpid(), c), part)
+        cfg = "SPECIFICATION %s\nCONSTANTS\n%s\n RecFile = \"%s\"\n" % (spec, consts, path)
+        jobs.append((c * per, dict(module=module, cfg_text=cfg, name="%s-%d" % (name or module, c), workers=1,
+                                   deadlock=False, timeout=timeout)))
+    bad, results, checked = [], [], 0
+
+    def one(job):
+        base, kw = job
+        return base, run_tlc(**kw)
+    with ThreadPoolExecutor(max_workers=NCPU) as ex:
+        for base, r in ex.map(one, jobs):
+            need_ok(r, "record validation " + (name or module))
+            results.append(r)
+            n = r.tagged.get("CHECKED", [{}])[0].get("n")
+            if n is None:
+                raise InfraError("record validation printed no CHECKED line\n" + r.out[-2000:])
+            checked += n
+            for b in r.tagged.get("BAD", []):
+                bad.append((base + b["i"] - 1, b["problems"]))
+    if checked != len(recs):
+        raise InfraError("record validation checked %d of %d records" % (checked, len(recs)))
+    return checked, bad, results
+
+
+def read_ndjson(path):
+    out = []
+    with open(path) as fh:
+        for line in fh:
+            line = line.strip()
+            if line:
+                out.append(json.loads(line))
+    return out
+
+
 def need_ok(r, what):
     """A TLC run on the *model* that fails is a spec problem (infra), never a code violation."""
     if not r.ok:
